@@ -218,7 +218,10 @@ def classify (c : Ctx) (path kind : String) : Option Write :=
   let cacheDir := c.spokfile.map (fun s => joinPath (dirOf s) ".spok")
   if cacheDir.any (under · path) then some ⟨.cache, .modify⟩
   else if some path == c.spokfile.map c.real then
-    (if kind == "mod" || kind == "app" then some ⟨.spokfile, .modify⟩ else none)
+    -- a dangling link `<cwd>/spokfile` is what discovery finds AND what `--init` creates through
+    (if kind == "mod" || kind == "app" then some ⟨.spokfile, .modify⟩
+     else if kind == "new" && path == c.real (joinPath c.cwd "spokfile") then some ⟨.cwdSpokfile, .create⟩
+     else none)
   else if path == c.real (joinPath c.cwd "spokfile") then
     (if kind == "new" then some ⟨.cwdSpokfile, .create⟩ else none)
   else if path == c.real (joinPath c.cwd ".gitignore") then
